@@ -146,6 +146,7 @@ func (h *handler) Name() string        { return "h" }
 func (h *handler) OpenStream(ctx context.Context, p peer.Peer) (drpc.Stream, []string, int, error) {
 	if strings.HasPrefix(p.Id(), "pstuck") {
 		// a dial to a stuck peer: it never completes (until the harness tears the world down)
+		h.w.ev(event{Kind: "dial-stuck", Peer: p.Id()})
 		h.w.ctl.PointIf("dial-stuck:"+p.Id(), func() bool { return h.w.cleanup })
 		return nil, nil, 0, errSend
 	}
@@ -195,7 +196,12 @@ type streamSpec struct {
 type scenario struct {
 	Streams []streamSpec `json:"streams"`
 	Ops     []opSpec     `json:"ops"`
+	Workers int          `json:"dial_workers,omitempty"` // dial workers (0 = 1)
+	DialQ   int          `json:"dial_queue,omitempty"`   // dial queue size (0 = 1)
 }
+
+func (s scenario) workers() int { return max(s.Workers, 1) }
+func (s scenario) dialQ() int   { return max(s.DialQ, 1) }
 
 func (s scenario) String() string {
 	var a, b []string
@@ -205,12 +211,22 @@ func (s scenario) String() string {
 	for _, o := range s.Ops {
 		b = append(b, o.String())
 	}
-	return strings.Join(a, ",") + " || " + strings.Join(b, " | ")
+	cfg := ""
+	if s.workers() != 1 || s.dialQ() != 1 {
+		cfg = fmt.Sprintf(" [dial workers %d queue %d]", s.workers(), s.dialQ())
+	}
+	return strings.Join(a, ",") + " || " + strings.Join(b, " | ") + cfg
 }
 
 func (w *world) runOp(name string, idx int, o opSpec) {
 	ctx := context.Background()
 	n := max(o.N, 1)
+	var seq []string
+	if o.Kind == "sendseq" {
+		// one caller sending to several peers in a row: Arg is the comma separated list of peers
+		seq = strings.Split(o.Arg, ",")
+		n = len(seq)
+	}
 	w.ev(event{Kind: "op-start", By: name})
 	for k := 0; k < n; k++ {
 		m := &msg{Name: fmt.Sprintf("m%d.%d", idx, k), w: w}
@@ -223,9 +239,16 @@ func (w *world) runOp(name string, idx int, o opSpec) {
 			err = w.pool.Broadcast(ctx, m, strings.Split(o.Arg, ",")...)
 		case "sendid":
 			err = w.pool.SendById(ctx, m, o.Arg)
-		case "send":
-			p := &fpeer{id: o.Arg}
+		case "send", "sendseq":
+			to := o.Arg
+			if seq != nil {
+				to = seq[k]
+			}
+			p := &fpeer{id: to}
 			err = w.pool.Send(ctx, m, func(context.Context) ([]peer.Peer, error) { return []peer.Peer{p}, nil })
+			if err == nil {
+				w.ev(event{Kind: "send-accepted", By: name, Msg: m.Name, Peer: to})
+			}
 		case "addtag", "rmtag":
 			st := w.streams[o.Arg]
 			sctx := streampool.VerifStreamCtx(ctx, st.id, st.peerId)
@@ -258,7 +281,7 @@ func (s scenario) sched() sched.Scenario {
 			}
 			w.ev(event{Kind: "removed", Stream: name, Peer: peerId, Res: strings.Join(tags, ",")})
 		}
-		w.pool = streampool.NewStreamPool(&handler{w}, streampool.StreamConfig{SendQueueSize: 2, DialQueueWorkers: 1, DialQueueSize: 1}, streampool.WithStreamCloseHook(hook))
+		w.pool = streampool.NewStreamPool(&handler{w}, streampool.StreamConfig{SendQueueSize: 2, DialQueueWorkers: s.workers(), DialQueueSize: s.dialQ()}, streampool.WithStreamCloseHook(hook))
 		if err := w.pool.Run(context.Background()); err != nil {
 			panic(err)
 		}
@@ -472,6 +495,24 @@ func (w *world) check(sc scenario) (out []finding) {
 			}
 		}
 	}
+	// isolation at the dial level: while at least one dial worker is not occupied by a dial that never completes,
+	// every Send the pool accepted for another (reachable) peer has been worked on at quiescence
+	stuckDials, attempted := 0, map[string]bool{}
+	for _, e := range w.log[:quiesceIdx] {
+		switch e.Kind {
+		case "dial-stuck":
+			stuckDials++
+		case "attempt":
+			attempted[e.Msg] = true
+		}
+	}
+	if stuckDials < sc.workers() {
+		for _, e := range w.log[:quiesceIdx] {
+			if e.Kind == "send-accepted" && !strings.HasPrefix(e.Peer, "pstuck") && !attempted[e.Msg] {
+				add("accepted-send-never-worked-on", "Send of %s to peer %s was accepted, %d of %d dial workers are occupied by dials that never complete, yet nothing was ever written for it", e.Msg, e.Peer, stuckDials, sc.workers())
+			}
+		}
+	}
 	// index consistency at quiescence
 	live := map[uint32]streampool.VerifStreamInfo{}
 	for _, fi := range w.finalSt {
@@ -557,30 +598,33 @@ func scenarios(c *vk.Ctx) (out []scenario) {
 	for _, q := range qs {
 		// stuck peer present: broadcasts and direct sends must all return and the healthy stream must get everything
 		out = append(out,
-			scenario{[]streamSpec{H(q), B(q)}, []opSpec{{"bcast", "t1", 3}, {"bcast", "t1", 2}}},
-			scenario{[]streamSpec{H(q), B(q)}, []opSpec{{"bcast", "t1", 2}, {"sendid", "pb", 3}, {"sendid", "ph", 2}}},
-			scenario{[]streamSpec{H(q), S(q)}, []opSpec{{"bcast", "t1", 3}, {"sendid", "ps", 2}}},
-			scenario{[]streamSpec{H(q), F(q)}, []opSpec{{"bcast", "t1", 2}, {"bcast", "t1", 2}}},
-			scenario{[]streamSpec{H(q), S(q)}, []opSpec{{"bcast", "t1", 2}, {"peerclose", "s", 1}, {"bcast", "t1", 1}}},
-			scenario{[]streamSpec{H(q), S(q)}, []opSpec{{"bcast", "t1", 2}, {"rmtag", "s", 1}, {"peerclose", "s", 1}}},
-			scenario{[]streamSpec{H(q), S(q)}, []opSpec{{"addtag", "s", 1}, {"peerclose", "s", 1}, {"bcast", "t2", 1}}},
-			scenario{[]streamSpec{H(q), B(q)}, []opSpec{{"send", "ph", 2}, {"send", "pn", 1}, {"bcast", "t1", 1}}},
-			scenario{[]streamSpec{H(q)}, []opSpec{{"send", "pn", 1}, {"send", "pn", 1}, {"sendid", "pn", 1}}},
-			scenario{[]streamSpec{H(q), F(q)}, []opSpec{{"rmtagid", "f", 1}, {"bcast", "t1", 2}, {"addstream", "pf", 1}}},
-			scenario{[]streamSpec{H(q), F(q)}, []opSpec{{"bcast", "t1", 1}, {"peerclose", "f", 1}}},
+			scenario{Streams: []streamSpec{H(q), B(q)}, Ops: []opSpec{{"bcast", "t1", 3}, {"bcast", "t1", 2}}},
+			scenario{Streams: []streamSpec{H(q), B(q)}, Ops: []opSpec{{"bcast", "t1", 2}, {"sendid", "pb", 3}, {"sendid", "ph", 2}}},
+			scenario{Streams: []streamSpec{H(q), S(q)}, Ops: []opSpec{{"bcast", "t1", 3}, {"sendid", "ps", 2}}},
+			scenario{Streams: []streamSpec{H(q), F(q)}, Ops: []opSpec{{"bcast", "t1", 2}, {"bcast", "t1", 2}}},
+			scenario{Streams: []streamSpec{H(q), S(q)}, Ops: []opSpec{{"bcast", "t1", 2}, {"peerclose", "s", 1}, {"bcast", "t1", 1}}},
+			scenario{Streams: []streamSpec{H(q), S(q)}, Ops: []opSpec{{"bcast", "t1", 2}, {"rmtag", "s", 1}, {"peerclose", "s", 1}}},
+			scenario{Streams: []streamSpec{H(q), S(q)}, Ops: []opSpec{{"addtag", "s", 1}, {"peerclose", "s", 1}, {"bcast", "t2", 1}}},
+			scenario{Streams: []streamSpec{H(q), B(q)}, Ops: []opSpec{{"send", "ph", 2}, {"send", "pn", 1}, {"bcast", "t1", 1}}},
+			scenario{Streams: []streamSpec{H(q)}, Ops: []opSpec{{"send", "pn", 1}, {"send", "pn", 1}, {"sendid", "pn", 1}}},
+			scenario{Streams: []streamSpec{H(q), F(q)}, Ops: []opSpec{{"rmtagid", "f", 1}, {"bcast", "t1", 2}, {"addstream", "pf", 1}}},
+			scenario{Streams: []streamSpec{H(q), F(q)}, Ops: []opSpec{{"bcast", "t1", 1}, {"peerclose", "f", 1}}},
 			// a dial that never completes occupies the only dial worker and the dial queue fills up: Send must still
 			// return to its caller (1 worker, queue of 1: the third pending Send finds the queue full)
-			scenario{[]streamSpec{H(q)}, []opSpec{{"send", "pstuck", 1}, {"send", "ph", 3}, {"bcast", "t1", 1}}},
-			scenario{[]streamSpec{H(q)}, []opSpec{{"send", "pstuck", 2}, {"send", "pstuck2", 2}, {"sendid", "ph", 1}}},
-			scenario{[]streamSpec{H(q), S(q)}, []opSpec{{"addtag", "s", 1}, {"bcast2", "t1,t2", 2}, {"addtag", "h", 1}}},
+			scenario{Streams: []streamSpec{H(q)}, Ops: []opSpec{{"send", "pstuck", 1}, {"send", "ph", 3}, {"bcast", "t1", 1}}},
+			scenario{Streams: []streamSpec{H(q)}, Ops: []opSpec{{"send", "pstuck", 2}, {"send", "pstuck2", 2}, {"sendid", "ph", 1}}},
+			// two dial workers: a dial that never completes may occupy one of them, the other one must go on serving
+			// (both are first kept busy by ordinary dials, so that several sends are waiting when one becomes free)
+			scenario{Streams: []streamSpec{H(q)}, Ops: []opSpec{{"sendseq", "pn1,pn2,pstuck,ph", 1}, {"bcast", "t1", 1}}, Workers: 2, DialQ: 2},
+			scenario{Streams: []streamSpec{H(q), S(q)}, Ops: []opSpec{{"addtag", "s", 1}, {"bcast2", "t1,t2", 2}, {"addtag", "h", 1}}},
 		)
 	}
 	if c.Thorough() {
 		for _, q := range qs {
 			out = append(out,
-				scenario{[]streamSpec{H(q), S(q), B(q)}, []opSpec{{"bcast", "t1", 2}, {"bcast", "t1", 2}, {"sendid", "ps", 2}, {"peerclose", "s", 1}}},
-				scenario{[]streamSpec{H(q), S(q), F(q)}, []opSpec{{"bcast", "t1", 2}, {"addtag", "s", 1}, {"rmtag", "f", 1}, {"peerclose", "f", 1}}},
-				scenario{[]streamSpec{H(q), S(q)}, []opSpec{{"send", "ps", 2}, {"send", "pn", 1}, {"peerclose", "s", 1}, {"bcast", "dialed", 1}}},
+				scenario{Streams: []streamSpec{H(q), S(q), B(q)}, Ops: []opSpec{{"bcast", "t1", 2}, {"bcast", "t1", 2}, {"sendid", "ps", 2}, {"peerclose", "s", 1}}},
+				scenario{Streams: []streamSpec{H(q), S(q), F(q)}, Ops: []opSpec{{"bcast", "t1", 2}, {"addtag", "s", 1}, {"rmtag", "f", 1}, {"peerclose", "f", 1}}},
+				scenario{Streams: []streamSpec{H(q), S(q)}, Ops: []opSpec{{"send", "ps", 2}, {"send", "pn", 1}, {"peerclose", "s", 1}, {"bcast", "dialed", 1}}},
 			)
 		}
 	}
